@@ -22,7 +22,7 @@ LEVEL_TEXT = {
     "C09": ("exploration", "Generated indexes and select/group/order combinations; the output text is parsed back into a header tree and compared with an independent partition/order/label model over raw rows.", "3/C09", "Hypothesis: output parsed back vs independent grouping/ordering model; count-vs-select metamorphic"),
     "C10": ("exploration", "Generated indexed directories, every note moved to generated destinations; oracle = line-conservation model on both files + recompilation.", "3/C10", "Hypothesis: line-conservation model + recompile round trip"),
     "C11": ("exploration", "Generated multi-day edit histories; oracle = independent model of which notes changed since the page was last indexed, both directions, byte-exact file expectation.", "3/C11", "Hypothesis model-based histories vs independent 'what changed' model"),
-    "C12": ("exploration", "Every note compiled from generated pages is rendered with to_string / query output / .zoq refresh and recompiled; round-trip oracle.", "3/C12", "Hypothesis: render/recompile round trip"),
+    "C12": ("exploration", "Every note compiled from generated pages is rendered with to_string / query output / .zoq refresh / `note move` and recompiled; round-trip oracle.", "3/C12", "Hypothesis: render/recompile round trip"),
     "C13": ("fault_enumeration", "For generated scenarios every boundary between consecutive external effects of create/reindex (+ write-back) gets a crash injected, then the command is rerun and compared with an uninterrupted run.", "3/C13", "systematic crash injection at every effect boundary, rerun vs uninterrupted run"),
     "C14": ("exploration", "Generated directories with adversarial link texts; oracle = token-level rewrite model giving the expected bytes of every file.", "3/C14", "Hypothesis: byte-exact token-level rewrite model"),
     "C15": ("exploration", "Generated acyclic saved-query sets and referencing queries on a real index; oracle = independent evaluator on the substituted AST + explicit-parenthesis metamorphic relation + missing-name error.", "3/C15", "Hypothesis: metamorphic {name} == (saved WHERE) vs independent evaluator"),
